@@ -98,10 +98,21 @@ func init() {
 						kind, mode, in, out := kind, mode, in, out
 						vs = append(vs, Variant{
 							Name: fmt.Sprintf("kind=%s,close=%s,input=%d,output=%d", kind, mode, in, out),
-							Make: func() *vsched.Scenario { return closedScenario(kind, mode, in, out) },
+							Make: func() *vsched.Scenario { return closedScenario(kind, mode, in, out, "") },
 						})
 					}
 				}
+			}
+		}
+		// the same, on a connection with a history: a read timeout is configured and an earlier timed
+		// read has already waited (ended by data, or by its timer), so the reused timer exists
+		for _, mode := range []string{"user", "peer", "peer+user", "user2"} {
+			for _, pre := range []string{"timed-read-data", "timed-read-timeout"} {
+				mode, pre := mode, pre
+				vs = append(vs, Variant{
+					Name: fmt.Sprintf("kind=client,close=%s,input=0,output=0,history=%s", mode, pre),
+					Make: func() *vsched.Scenario { return closedScenario("client", mode, 0, 0, pre) },
+				})
 			}
 		}
 		return vs
@@ -117,7 +128,7 @@ type callRes struct {
 	done     bool
 }
 
-func closedScenario(kind, mode string, in, out int) *vsched.Scenario {
+func closedScenario(kind, mode string, in, out int, pre string) *vsched.Scenario {
 	var conn netpoll.Connection
 	var a, b int
 	var results []*callRes
@@ -145,6 +156,24 @@ func closedScenario(kind, mode string, in, out int) *vsched.Scenario {
 		}
 		c := conn
 		c.AddCloseCallback(func(netpoll.Connection) error { vsched.LogEvent("closecb"); return nil })
+		switch pre {
+		case "timed-read-data":
+			c.SetReadTimeout(100 * time.Millisecond)
+			vsched.Go("early-peer", func() { vsyscall.HWrite(b, []byte{'e'}) })
+			if _, err := c.Reader().Next(1); err == nil {
+				c.Reader().Release()
+			} else {
+				// the timer won: the byte may arrive later; consume it so that the input is empty again
+				vsched.WaitCond("early-byte", func() bool { return netpoll.VerifState(c).InputLen == 1 })
+				c.Reader().Next(1)
+				c.Reader().Release()
+			}
+			vsched.Settle("after-early-read")
+		case "timed-read-timeout":
+			c.SetReadTimeout(100 * time.Millisecond)
+			c.Reader().Next(1) // nothing arrives: ends with ErrReadTimeout
+			vsched.Settle("after-early-read")
+		}
 		if in > 0 {
 			vsyscall.HWrite(b, stream(0, in))
 			vsched.WaitCond("input-buffered", func() bool { return netpoll.VerifState(c).InputLen == in })
